@@ -7,8 +7,8 @@ CONSTANTS
   MaxCrashes = 1
   FlagSet = {"S", "T"}
   AppendFlags = {{}, {"T"}}
-  Dev = {"CopyMetadataOnly", "MoveKeepsSourceRecord", "MkdirNotAtomic", "TempInSystemTmp"}
-  Tol = {"CopyMetadataOnly", "MoveKeepsSourceRecord", "MkdirNotAtomic", "TempInSystemTmp"}
+  Dev = {"MoveKeepsSourceRecord"}
+  Tol = {"MoveKeepsSourceRecord"}
   OtherFs = FALSE
   Virgin = TRUE
   Existing = {}
